@@ -190,6 +190,25 @@ class LocMap:
 
                 yield pos
 
+    @staticmethod
+    def slice_close_ends(key: slice, offset: int, length: int) -> slice:
+        '''Given an iloc slice already shifted by ``offset``, replace open ends (None) with the bounds of the region of ``length`` positions starting at ``offset``, so that the slice does not extend beyond that region.
+        '''
+        if key.start is not None and key.stop is not None:
+            return key
+        start, stop = key.start, key.stop
+        if key.step is None or key.step > 0:
+            if start is None:
+                start = offset
+            if stop is None:
+                stop = offset + length
+        else:
+            if start is None:
+                start = offset + length - 1
+            if stop is None and offset > 0:
+                stop = offset - 1
+        return slice(start, stop, key.step)
+
     @classmethod
     def loc_to_iloc(cls, *,
             label_to_pos: tp.Dict[tp.Hashable, int],
@@ -217,7 +236,7 @@ class LocMap:
                 # when offset is defined (even if it is zero), null slice is not sufficiently specific; need to convert to an explicit slice relative to the offset
                 return slice(offset, len(positions) + offset) #type: ignore
             try:
-                return slice(*cls.map_slice_args(
+                key = slice(*cls.map_slice_args(
                         label_to_pos.get, #type: ignore
                         key,
                         labels,
@@ -225,6 +244,9 @@ class LocMap:
                         )
             except LocEmpty:
                 return EMPTY_SLICE
+            if offset_apply:
+                return cls.slice_close_ends(key, offset, len(positions)) #type: ignore
+            return key
 
         if isinstance(key, np.datetime64):
             # convert this to the target representation, do a Boolean selection
@@ -939,7 +961,10 @@ class Index(IndexBase):
             if key.__class__ is slice:
                 if key == NULL_SLICE:
                     return slice(offset, self.__len__() + offset)
-                return slice_to_inclusive_slice(key, offset) #type: ignore
+                return LocMap.slice_close_ends(
+                        slice_to_inclusive_slice(key, offset), #type: ignore
+                        offset,
+                        self.__len__())
 
             if key.__class__ is np.ndarray:
                 # PERF: isolate for usage of _positions
